@@ -60,6 +60,12 @@ def custom_target(xml_abs, prefix, ns='CU', second=True):
                 shared=True, second=second)
 
 
+def custom_fixt_target(app_abs, fixt_abs, prefix, ns='CF'):
+    """a self-made application schema compiled together with a self-made transport (FIXT) schema"""
+    return dict(args=['-p', prefix, '-n', ns, app_abs, '--fixt', fixt_abs], prefix=prefix, ns=ns, schema=app_abs, fixt=fixt_abs, extra=None, realm=True,
+                shared=True, second=False)
+
+
 def _gen_root():
     return os.path.join(CACHE, tree_key(), 'gen')
 
